@@ -37,6 +37,7 @@ def generate(seed, stratum, tier):
   kw = {'decline_bias': rng.choice([0.1, 0.3]), 'p_swallow': rng.choice([0.0, 0.15, 0.3]), 'p_mute': rng.choice([0.0, 0.3, 0.6])}
   sc = cc.gen_chart_scenario(rng, combos=[('queued', 'closure-spied')], nops=(4, 25), spec_kw=kw, flags=False)
   sc['variants'] = [0] + sorted(rng.sample(range(1, len(VARIANTS)), 3 if tier == 'quick' else 6))
+  sc['twin'] = rng.random() < 0.4
   if stratum == 'late-registration':
     # handling for a (state, signal) pair is registered, or replaced, after the chart has been running
     # (the text of to_code is taken at build time, so those variants are left out here)
